@@ -22,7 +22,7 @@ where
     let sched = Rc::new(Sched::new(seed, policy_from(&mut rng), false));
     let ((mut res, log), rt) = run_sim(seed, sched.clone(), f);
     if let Err(e) = rt {
-        if res.violations.is_empty() {
+        if res.violations.is_empty() && !res.probes.contains_key("step_budget_exhausted") {
             res.harness_error.get_or_insert(e);
         }
     }
